@@ -1,5 +1,4 @@
 pub mod common;
-pub mod probes;
-mod probes2;
-mod probes3;
 mod leaf;
+mod nopanic;
+mod roundtrip;
